@@ -305,6 +305,8 @@ PROP = Prop(
         Layer("responses", strategy=cases, execute=execute, budget={"quick": 96, "thorough": 3200}),
         Layer("big-responses", strategy=lambda: cases(big=True), execute=execute, budget={"quick": 24, "thorough": 320}),
         __import__("vf.props.real", fromlist=["layer_for"]).layer_for("C02", {"quick": 400, "thorough": 12000}),
+        Layer("real-truncation-sweep", cases=__import__("vf.props.real", fromlist=["truncation_sweep"]).truncation_sweep,
+              execute=__import__("vf.props.real", fromlist=["make_execute"]).make_execute("C02")),
     ],
     assumptions=["ground truth comes from the server plan (vf/peers/h1.py, h2.py build the wire bytes and the expected observation)",
                  "chunked framing only with HTTP/1.1 status lines; heads stay below h11's 100 kB incomplete-event limit",
